@@ -324,6 +324,7 @@ func TestVerif_C03_h2cut(t *testing.T) {
 			"MODEL-judged: fail / fail-call / fail-body delivered=<bytes> / retry (replayed) / ok status body, and dials after the second request (1 iff the model's connection can take a new request and is in the pool). "+
 			"Second opinion (Go oracle): success implies a complete consistent response and the true body; the second request succeeds. non-trivial = fault injected")
 	r := s.Rand()
+	rp := c03PosRand(3) // the round-6 dimensions draw from their own stream
 	peer := newC03H2Peer(t)
 	defer func() { peer.ln.Close(); peer.reset(nil) }()
 	url := "http://" + peer.ln.Addr().String() + "/x"
@@ -516,7 +517,7 @@ func TestVerif_C03_h2cut(t *testing.T) {
 		// exchange position: the scripted response answers the LAST exchange of the call (stream 3),
 		// a complete body-less prelude (401 challenge / 503 / 302) takes stream 1
 		sid := 1
-		if cc.pos = c03PickPos(r, cc.mode, true); cc.pos != "" {
+		if cc.pos = c03PickPos(rp, cc.mode, true); cc.pos != "" {
 			c03ApplyPos(c, cc.pos)
 			peer.reset([]c03H2Scenario{c03H2Prelude(cc.pos), sc})
 			sid = 3
